@@ -7,9 +7,13 @@ import (
 	"context"
 	"encoding/binary"
 	"fmt"
+	"go/ast"
 	"go/format"
+	"go/parser"
+	"go/token"
 	"hash/crc32"
 	"io"
+	"math/bits"
 	"net"
 	"os"
 	osexec "os/exec"
@@ -33,16 +37,14 @@ import (
 type liteBinding struct{}
 
 func init() {
-	ops := tlexec.Ops(liteBinding{}, "tl.req", func(captured []byte) ([]byte, bool) {
-		if len(captured) < 36 { // ADNL payload: magic, 32 bytes random query id, query
-			return nil, false
-		}
-		return append(append([]byte{}, captured[:4]...), captured[36:]...), true
-	})
+	ops := tlexec.Ops(liteBinding{}, "tl.req", stripQid)
 	for k, v := range map[string]h.ExecFn{
 		"prim.crc32":          func(a []string) string { return fmt.Sprint(crc32.ChecksumIEEE(h.MustUnHex(a[0]))) },
 		"tl.schema":           exSchema,
 		"tl.crcid":            exCrcID,
+		"tl.wait.seqno":       exWaitSeqno,
+		"tl.wait.block":       exWaitBlock,
+		"go.tl.tagtable":      goTagTable,
 		"tl.hw.accountid":     exHwAccountID,
 		"tl.hw.blockidext":    exHwBlockIDExt,
 		"tl.hw.accountid.dec": exHwAccountIDDec,
@@ -57,6 +59,129 @@ func init() {
 		ops[k] = v
 	}
 	h.Register(&h.Prop{ID: "C10", Gen: genC10, Exec: ops})
+}
+
+// stripQid removes the random part of a captured ADNL payload: magic, 32 bytes random query id, query
+func stripQid(captured []byte) ([]byte, bool) {
+	if len(captured) < 36 {
+		return nil, false
+	}
+	return append(append([]byte{}, captured[:4]...), captured[36:]...), true
+}
+
+// the hand-written request builders of liteclient/client.go against the stub connection:
+// tl.wait.seqno / tl.wait.block <schema> <seqno> <timeout> <answer hex> -> ok <request as sent, query id removed> <outcome>
+func waitCall(a []string, f func(st *stubServer, seqno, timeout uint32) string) string {
+	sq, e1 := strconv.ParseUint(a[1], 10, 32)
+	to, e2 := strconv.ParseUint(a[2], 10, 32)
+	if e1 != nil || e2 != nil {
+		return "bad-op"
+	}
+	st := getStub()
+	st.mu.Lock()
+	st.answer, st.captured = unDash(a[3]), nil
+	st.mu.Unlock()
+	res := f(st, uint32(sq), uint32(to))
+	st.mu.Lock()
+	captured := st.captured
+	st.mu.Unlock()
+	out, ok := stripQid(captured)
+	if !ok {
+		return "err"
+	}
+	return "ok " + h.Hex(out) + " " + res
+}
+
+func lsErrText(s *tlmini.Schema, err error) string {
+	le, ok := err.(liteclient.LiteServerErrorC)
+	if !ok {
+		return "err"
+	}
+	vs, err2 := s.GetFields(s.Ctor("liteServer.error"), reflect.ValueOf(le))
+	if err2 != nil {
+		return "nobinding " + err2.Error()
+	}
+	return "lserr " + (&tlmini.Val{K: tlmini.VTuple, Items: vs}).String()
+}
+
+func exWaitSeqno(a []string) string {
+	s := schemaOfArg(a[0])
+	return waitCall(a, func(st *stubServer, seqno, timeout uint32) string {
+		err := st.client.WaitMasterchainSeqno(context.Background(), seqno, timeout)
+		if err == nil {
+			return "nil"
+		}
+		return lsErrText(s, err)
+	})
+}
+
+func exWaitBlock(a []string) string {
+	s := schemaOfArg(a[0])
+	return waitCall(a, func(st *stubServer, seqno, timeout uint32) string {
+		res, err := st.client.WaitMasterchainBlock(context.Background(), seqno, timeout)
+		if err != nil {
+			return lsErrText(s, err)
+		}
+		c := s.Ctor("liteServer.blockHeader")
+		vs, err2 := s.GetFields(c, reflect.ValueOf(res))
+		if err2 != nil {
+			return "nobinding " + err2.Error()
+		}
+		return "res " + (&tlmini.Val{K: tlmini.VSum, Ctor: c.Ctor, Items: vs}).String()
+	})
+}
+
+// goTagTable: liteapi/models.go is a table `<CamelCase(constructor)>Tag = <id, bytes reversed>`; every constant whose
+// name is that of a declaration of lite_api.tl (or of its commented `liteServer.waitMasterchainSeqno`) must carry that
+// declaration's id. Input-free comparison of two artefacts.
+func goTagTable([]string) string {
+	src, err := os.ReadFile(filepath.Join(repoDir(), "liteclient", "lite_api.tl"))
+	if err != nil {
+		return "bad-op"
+	}
+	s, err := tlmini.Parse(string(src))
+	if err != nil {
+		return "bad-op"
+	}
+	want := map[string]uint32{"LiteServerWaitMasterchainSeqno": 0xbaeab892}
+	for _, d := range append(append([]*tlmini.Decl{}, s.Types...), s.Funcs...) {
+		want[tlmini.GoBoxedName(d.Ctor)] = uint32(d.ID)
+	}
+	f, err := parser.ParseFile(token.NewFileSet(), filepath.Join(repoDir(), "liteapi", "models.go"), nil, 0)
+	if err != nil {
+		return failf("tagtable", "%v", err)
+	}
+	var bad []string
+	n := 0
+	for _, d := range f.Decls {
+		gd, ok := d.(*ast.GenDecl)
+		if !ok || gd.Tok != token.CONST {
+			continue
+		}
+		for _, sp := range gd.Specs {
+			vs := sp.(*ast.ValueSpec)
+			if len(vs.Names) != 1 || len(vs.Values) != 1 || !strings.HasSuffix(vs.Names[0].Name, "Tag") {
+				continue
+			}
+			lit, ok := vs.Values[0].(*ast.BasicLit)
+			if !ok {
+				continue
+			}
+			v, err := strconv.ParseUint(lit.Value, 0, 32)
+			id, known := want[strings.TrimSuffix(vs.Names[0].Name, "Tag")]
+			if err != nil || !known {
+				continue
+			}
+			n++
+			if bits.ReverseBytes32(uint32(v)) != id {
+				bad = append(bad, fmt.Sprintf("%s=%#08x (schema id %08x)", vs.Names[0].Name, v, id))
+			}
+		}
+	}
+	if len(bad) > 0 {
+		return failf("tagtable", "%d of %d constants of liteapi/models.go do not carry the id of their declaration: %s", len(bad), n, strings.Join(bad, ", "))
+	}
+	return "ok"
 }
 
 func (liteBinding) Type(name string) (reflect.Type, bool) { return goType(name) }
@@ -142,6 +267,45 @@ func exCrcID(a []string) string {
 		return "bad-op"
 	}
 	return fmt.Sprintf("ok %08x", all[0].ID)
+}
+
+// genWait: WaitMasterchainSeqno / WaitMasterchainBlock with every kind of answer: liteServer.error with code 0 and with
+// other codes, a block header, another constructor id, fewer than four bytes, a truncated error / header
+func genWait(g *h.G, s *tlmini.Schema) {
+	sub := textHex(s.Sub(nil, []string{"liteServer.lookupBlock"}, "liteServer.error"))
+	le32 := func(v uint32) []byte { return binary.LittleEndian.AppendUint32(nil, v) }
+	errID, hdrID := uint32(s.Ctor("liteServer.error").ID), uint32(s.Ctor("liteServer.blockHeader").ID)
+	for i := 0; i < g.Scale(40, 600); i++ {
+		seqno, timeout := uint32(g.U64()), uint32(g.U64())
+		if i%4 == 0 {
+			seqno, timeout = uint32(g.Rng.Intn(3)), uint32(g.Rng.Intn(3))
+		}
+		var ans []byte
+		switch i % 8 {
+		case 0, 1: // liteServer.error code 0
+			msg, _ := tlmini.EncBytes(g.Bytes(g.Rng.Intn(20)))
+			ans = append(append(le32(errID), le32(0)...), msg...)
+		case 2:
+			msg, _ := tlmini.EncBytes(g.Bytes(g.Rng.Intn(300)))
+			ans = append(append(le32(errID), le32(uint32(g.U64()))...), msg...)
+		case 3, 4: // liteServer.blockHeader id:tonNode.blockIdExt mode:# header_proof:bytes
+			proof, _ := tlmini.EncBytes(g.Bytes(g.Rng.Intn(300)))
+			ans = append(append(append(le32(hdrID), g.Bytes(80)...), le32(uint32(g.U64()))...), proof...)
+			ans = append(ans, g.Bytes(g.Rng.Intn(2)*4)...)
+		case 5:
+			ans = append(le32(uint32(g.U64())), g.Bytes(g.Rng.Intn(100))...)
+		case 6:
+			ans = g.Bytes(g.Rng.Intn(4))
+		case 7:
+			id := errID
+			if g.Rng.Intn(2) == 0 {
+				id = hdrID
+			}
+			ans = append(le32(id), g.Bytes(g.Rng.Intn(40))...)
+		}
+		g.Emit("tl.wait.seqno", sub, fmt.Sprint(seqno), fmt.Sprint(timeout), hexDash(ans))
+		g.Emit("tl.wait.block", sub, fmt.Sprint(seqno), fmt.Sprint(timeout), hexDash(ans))
+	}
 }
 
 // -------------------------------------------------------------------------------------------- stub connection
@@ -482,6 +646,8 @@ func genC10(g *h.G) {
 	}
 	g.Emit("prim.crc32", textHex("liteServer.query data:bytes = Object"))
 	g.Emit("go.regen.liteclient")
+	g.Emit("go.tl.tagtable")
+	genWait(g, s)
 	g.Emit("go.regen.integers")
 	g.Emit("tl.schema", textHex(string(src)))
 	all := append(append([]*tlmini.Decl{}, s.Types...), s.Funcs...)
